@@ -2,7 +2,7 @@
 import io
 
 from .. import codec_corr as cc
-from ..values import to_py
+from ..values import from_py
 from . import _codec, _wire
 
 
@@ -11,7 +11,19 @@ def run(ctx):
 
     classes, n_schema, gen = _codec.setup(ctx)
     per_class = 2 if ctx["tier"] == "quick" else 30
+    gen.allow_nan = True        # the full wire domain of float64: every bit pattern, incl. NaN payloads
     cases = _wire.wire_cases(ctx, classes, n_schema, gen, per_class, p_send=0.0, p_unknown=0.0)
+    from ..values import describe as _describe
+
+    def has_float(cls, depth=0):
+        return any(d.kafka == "float64" or (d.ent is not None and depth < 3 and has_float(d.ent, depth + 1)) for d in _describe(cls))
+    float_classes = [i for i in range(n_schema) if has_float(classes[i])]
+    if float_classes:
+        sub = [classes[i] for i in float_classes]
+        extra = _wire.wire_cases(ctx, sub, len(sub), gen, 12 if ctx["tier"] == "quick" else 60, p_send=0.0, p_unknown=0.0)
+        for c in extra:
+            c["cls"] = float_classes[c["cls"]]
+        cases += extra
     failing, errors = _wire.run_coq(ctx, "C05", cases)
     # accepted non-canonical inputs (decorated): decode -> encode -> decode must be stable
     deco = _wire.wire_cases(ctx, classes[:n_schema], n_schema, gen, 1, p_send=0.5, p_unknown=0.5) if ctx["tier"] == "thorough" else \
@@ -24,7 +36,7 @@ def run(ctx):
             b1 = io.BytesIO(); entity_writer(cls)(b1, o1)
             o2 = entity_reader(cls)(io.BytesIO(b1.getvalue()))
             b2 = io.BytesIO(); entity_writer(cls)(b2, o2)
-            if o1 != o2 or b1.getvalue() != b2.getvalue():
+            if from_py(o1) != from_py(o2) or b1.getvalue() != b2.getvalue():   # abstract values: NaN == NaN bitwise
                 idem_bad.append((c, "decode-then-encode is not idempotent"))
         except Exception as e:  # noqa
             idem_bad.append((c, f"decoder output not accepted by the encoder: {cc.err_name(e)}"))
@@ -46,7 +58,7 @@ def run(ctx):
         "evaluations": len(cases) + len(deco), "distinct_nontrivial": len({(c["cls"], c["ref"]) for c in cases + deco}),
         "traces_validated_against_impl": len(cases) - len(failing),
         "rule": "canonical encodings generated wire-first by the reference encoder over the wire domain (boundary "
-                "timestamps/durations incl. > 2^53 ms, NaN-free float bit patterns incl. -0.0, max-length strings) -> "
+                "timestamps/durations incl. > 2^53 ms, all float64 bit patterns incl. -0.0, infinities and NaN payloads, max-length strings) -> "
                 "decode -> encode must reproduce the bytes; plus decorated (non-canonical but accepted) inputs for idempotence",
         "idempotence_cases": len(deco), "generator_stats": gen.stats, "distribution": _codec.distribution(cases, classes),
         "samples": [_wire.describe(classes, c) for c in cases[:2]],
